@@ -66,6 +66,15 @@ def cells(tier):
                    ('EAItemSwap', {'k': 2}), ('roItemInsert', {}), ('EAItemInsert', {'tk': 'blank'}), ('EAItemDelete', {'k': 2}),
                    ('EAItemReplace', {})):
         out.append(mk(op, 3, gap=None, rname='any', timeout=T, extra={'prehist': True}, **kw))
+    # the smallest shapes: a single item; every item of the story named as a source
+    for op, kw in (('roItemMoveMultiple', {'tk': 'blank'}), ('EAItemMove', {'tk': 'blank'}), ('roItemDelete', {}), ('EAItemDelete', {}),
+                   ('roItemReplace', {'k': 2}), ('EAItemReplace', {}), ('roItemInsert', {}), ('EAItemInsert', {'tk': 'blank'})):
+        out.append(mk(op, 1, gap=None, rname='single-item', timeout=T, **kw))
+        out.append(mk(op, 1, gap=None, lead=1, rname='single-item', timeout=T, **kw))
+    for op, kw in (('roItemMoveMultiple', {'k': 2, 'tk': 'blank'}), ('EAItemMove', {'k': 2, 'tk': 'blank'}), ('roItemDelete', {'k': 2}),
+                   ('EAItemDelete', {'k': 2}), ('EAItemSwap', {'k': 2})):
+        out.append(mk(op, 2, gap=None, rname='all-items-named', timeout=T, **kw))
+        out.append(mk(op, 2, gap=None, lead=1, rname='all-items-named', timeout=T, **kw))
     # addressed story is the second one; story without slug / with leading paragraph
     for op in ('roItemMoveMultiple', 'EAItemMove', 'roItemInsert', 'roItemReplace', 'roItemDelete', 'EAItemDelete'):
         out.append(mk(op, 3, w=1, gap=None, rname='second-story', timeout=T))
